@@ -1,11 +1,19 @@
 //! fvh - runtime-monitoring harness for jix/flussab (see /verif/DESIGN.md).
 #![allow(clippy::all)]
 pub mod alloc;
+pub mod c01;
 pub mod c02;
+pub mod c04;
+pub mod c05;
+pub mod c07;
+pub mod c09;
 pub mod c11;
 pub mod c13;
 pub mod c15;
 pub mod c16;
+pub mod corpus;
+pub mod drive;
+pub mod gen;
 pub mod json;
 pub mod prng;
 pub mod sink;
